@@ -276,8 +276,55 @@ def same_name_edge_templates(c):
     return dict(status="violated" if fails else "ok", fails=fails[:2])
 
 
+def derived_circuit_yaml_case(c):
+    """`ring: {base: pair, edges: [...]}` in YAML: the derived circuit has the inherited and the added edge; editing an inherited edge on the
+    derived circuit leaves the base circuit (and what a later from_yaml of it returns) as written."""
+    import numpy as np
+    from ruamel.yaml import YAML
+    from pyrates import CircuitTemplate
+    os.makedirs("dc", exist_ok=True)
+    doc = dict(
+        lop=dict(base="OperatorTemplate", equations=["d/dt * r = (k - r)/tau + r_in"], variables={"r": "output(0.2)", "r_in": "input(0.0)", "k": 0.5, "tau": 2.0}),
+        pop=dict(base="NodeTemplate", operators=["lop"]),
+        pair=dict(base="CircuitTemplate", nodes={"a": "pop", "b": "pop"}, edges=[["a/lop/r", "b/lop/r_in", None, {"weight": 0.5}]]),
+        ring=dict(base="pair", edges=[["b/lop/r", "a/lop/r_in", None, {"weight": -0.25}]]))
+    with open("dc/t.yaml", "w") as fh:
+        YAML().dump(doc, fh)
+
+    def field(tpl):
+        f, a, names, m = tpl.get_run_func("vf", step_size=1e-3, vectorize=c["vec"], verbose=False, float_precision="float64", file_name="dc_mod",
+                                          in_place=False, clear=True)
+        a = list(a)
+        yi = list(names).index("y")
+        a[yi] = np.asarray([0.3, -0.2], dtype=np.asarray(a[yi]).dtype)
+        return np.asarray(f(*a), dtype=float).ravel()
+    fails = []
+    try:
+        ring = CircuitTemplate.from_yaml("dc/t/ring")
+        want_ring = [(0.5 - 0.3) / 2 - 0.25 * -0.2, (0.5 + 0.2) / 2 + 0.5 * 0.3]
+        got = field(ring)
+        if not np.allclose(got, want_ring, rtol=1e-9, atol=1e-12):
+            fails.append(dict(clause="a circuit derived via base: has the inherited and the added edges", observed=got.tolist(), expected=want_ring))
+        ring.update_var(edge_vars=[("a/lop/r", "b/lop/r_in", {"weight": 4.0})])
+        got = field(ring)
+        want2 = [want_ring[0], (0.5 + 0.2) / 2 + 4.0 * 0.3]
+        if not np.allclose(got, want2, rtol=1e-9, atol=1e-12):
+            fails.append(dict(clause="an inherited edge can be edited on the derived circuit", observed=got.tolist(), expected=want2))
+        pair = CircuitTemplate.from_yaml("dc/t/pair")
+        got = field(pair)
+        want_pair = [(0.5 - 0.3) / 2, (0.5 + 0.2) / 2 + 0.5 * 0.3]
+        if not np.allclose(got, want_pair, rtol=1e-9, atol=1e-12):
+            fails.append(dict(clause="the base circuit is as written after an inherited edge was edited on the circuit derived from it",
+                              observed=got.tolist(), expected=want_pair))
+    except Exception as exn:
+        fails.append(dict(clause="derived circuit (base: <circuit>) loads, compiles and can be edited", observed=f"{type(exn).__name__}: {exn}"))
+    return dict(status="violated" if fails else "ok", fails=fails[:2])
+
+
 def dispatch(c):
     k = c["kind"]
+    if k == "derived_circuit_yaml":
+        return derived_circuit_yaml_case(c)
     if k == "same_name_edges":
         return same_name_edge_templates(c)
     if k == "edit":
@@ -327,6 +374,8 @@ def families(tier, seed):
             for vec in (False, True):
                 out.append(dict(tag=f"Y5-same-name-edge-templates/{route}/{order}", features=dict(route=route, same_name_edges=True), kind="same_name_edges",
                                 route=route, order=order, vec=vec))
+    for vec in (False, True):
+        out.append(dict(tag="Y7-circuit-derived-via-base-then-edited", features=dict(derived_circuit=True), kind="derived_circuit_yaml", vec=vec))
     out.append(dict(tag="Y1-two-path-spellings", features={}, kind="two_spellings"))
     out.append(dict(tag="Y4-relative-reference-after-full-path", features={}, kind="cross_file"))
     # hierarchy without per-node overrides: two sub-circuits that differ by one edge
